@@ -21,7 +21,8 @@ macro_rules! rel {
         f!(
             $name,
             false,
-            ["debhelper-compat (= 13)", "libfoo-dev (>= 1.0), bar | baz (<< 2:3.0-1~)", "python3:any, gcc [amd64 !i386] <!nocheck>"],
+            // the last one: groups of several terms with every mix of negated and plain terms, in both orders
+            ["debhelper-compat (= 13)", "libfoo-dev (>= 1.0), bar | baz (<< 2:3.0-1~)", "python3:any, gcc [amd64 !i386] <!nocheck>", "a <!x y> <z !w>, b [!amd64 !i386] <p !q r> <!s !t u>"],
             Relations,
             Some("foo bar")
         )
